@@ -28,6 +28,7 @@ func runC12(c *report.Ctx) {
 	ruleGapOracleIsTheChain(c)
 	ruleRollbackBeforeCursorMoves(c) // the used flag follows a reorg only if the rollback really unwinds
 	ruleChainFetcherHasNoMemory(c)
+	ruleRelatedTxAskedOnce(c)
 	ruleBestHeightReadWhileParked(c) // a payment in a block the rescan skipped leaves the restored address listed unused
 	ruleStakingUseMarksStandardForm(c)
 	na := fn(c, pkgKeystore, "AddrManager", "nextAddresses")
